@@ -253,7 +253,7 @@ struct C18 : Profile {
       plan["rows"] = rows;
       // the handle as a state machine: prepared-statement life cycle, close and re-open in any order (no model of the results: memory safety and the stored rows are the oracle)
       json so = json::array(); if (r.chance(0.6)) { int n = (int)r.range(1, 10); for (int i = 0; i < n; ++i) so.push_back((int)r.below(14)); }
-      plan["stmt_ops"] = so;
+      plan["stmt_ops"] = so; plan["reexec"] = r.chance(0.5);
     }
     return plan;
   }
@@ -412,6 +412,9 @@ struct C18 : Profile {
         default: s += "print \"qx:\" isnull(d.query(\"select count(*) from t2\"));\n"; break; }
         s += "exception\nwhen others then\n  print \"module error\";\nend;\n"; }
       if (!so.empty()) s += "if not d.isopen() then\n  print \"ro:\" d.open(\"" + db + "\");\nend if;\nprint \"fz:\" d.finalize();\n"; }
+    // a prepared statement run again after only part of its rows were fetched starts from the first row again
+    const bool reexec = plan.value("reexec", false) && plan["rows"].size() >= 2;
+    if (reexec) { s += "fq = tup();\nprint \"rp:\" d.prepare(\"select k from t order by k\");\nprint \"re:\" d.execute();\nprint \"rf:\" d.fetch(fq);\nprint \"re:\" d.execute();\nput \"KS:\";\nwhile d.fetch(fq) loop\n  put fq@1 \",\";\nend loop;\nprint;\nprint \"rz:\" d.finalize();\n"; res.nontrivial = true; ++res.probes["sqlite_statement_run_again_after_partial_fetch"]; }
     s += "rs = d.query(\"select a, b, c, d, e from t order by k\");\nprint \"R:\" rs.count();\n";
     s += "forall rw in rs loop\n  put typeof(rw@1) \"|\" typeof(rw@2) \"|\" typeof(rw@3) \"|\" typeof(rw@4) \"|\" typeof(rw@5);\n  print;\nend loop;\n";
     // the content the script reads back, column by column (strings and bytes as byte codes)
@@ -431,6 +434,8 @@ struct C18 : Profile {
     // the independent reader: libsqlite3 directly
     sqlite3* h = nullptr; if (sqlite3_open_v2(db.c_str(), &h, SQLITE_OPEN_READONLY, nullptr) != SQLITE_OK) { fail("C18/sqlite-database-unreadable", db); unlink(db.c_str()); return; }
     sqlite3_stmt* st = nullptr; sqlite3_prepare_v2(h, "select a, b, c, d, e from t order by k", -1, &st, nullptr); int ri = 0;
+    if (reexec) { std::string want = "KS:"; for (size_t i = 1; i <= plan["rows"].size(); ++i) want += std::to_string(i) + ","; std::stringstream ss(ro.out); std::string l, got; while (std::getline(ss, l)) if (l.compare(0, 3, "KS:") == 0) got = l;
+      if (got != want) fail("C18/sqlite-prepared-statement-rows-differ", "second execute() returned '" + got + "' instead of '" + want + "'"); }
     std::vector<std::string> script_types; { std::stringstream ss(ro.out); std::string l; while (std::getline(ss, l)) if (l.find('|') != std::string::npos) script_types.push_back(l); }
     while (st && sqlite3_step(st) == SQLITE_ROW && ri < (int)plan["rows"].size()) {
       const json& row = plan["rows"][ri]; std::string want_types;
